@@ -1,6 +1,7 @@
 package reactive
 
 import "sync"
+import "github.com/samsarahq/thunder/internal/verifhook"
 
 // node is the core of the observable dependency invalidation DAG and resource
 // freeing DAG
@@ -65,6 +66,7 @@ func (n *node) strobe() {
 		out = append(out, to)
 	}
 	n.mu.Unlock()
+	verifhook.Yield("reactive.strobe.snapshot")
 
 	for _, to := range out {
 		to.invalidate()
@@ -92,10 +94,12 @@ func (n *node) invalidate() {
 		out = append(out, to)
 	}
 	n.mu.Unlock()
+	verifhook.Yield("reactive.invalidate.unlocked")
 
 	if n.afterInvalidate != nil {
 		n.afterInvalidate()
 	}
+	verifhook.Yield("reactive.invalidate.handled")
 
 	// recursively invalidate dependencies
 	for _, to := range out {
@@ -115,6 +119,7 @@ func (n *node) release() {
 
 	n.released = true
 	n.mu.Unlock()
+	verifhook.Yield("reactive.release.flagged")
 
 	if n.afterRelease != nil {
 		n.afterRelease()
@@ -128,6 +133,7 @@ func (n *node) release() {
 		delete(from.out, n)
 		shouldRelease := len(from.out) == 0
 		from.mu.Unlock()
+		verifhook.Yield("reactive.release.edge")
 
 		if shouldRelease {
 			from.release()
@@ -141,6 +147,7 @@ func (n *node) release() {
 func (n *node) addOut(to *node) {
 	// lock both nodes to atomically register the dependency
 	// lock the dependency first to prevent deadlocks
+	verifhook.Yield("reactive.addOut.enter")
 	n.mu.Lock()
 	to.mu.Lock()
 
@@ -164,6 +171,7 @@ func (n *node) addOut(to *node) {
 
 	to.mu.Unlock()
 	n.mu.Unlock()
+	verifhook.Yield("reactive.addOut.unlocked")
 
 	if shouldInvalidate {
 		go to.invalidate()
@@ -174,6 +182,7 @@ func (n *node) addOut(to *node) {
 }
 
 func (n *node) handleInvalidate(f func()) {
+	verifhook.Yield("reactive.handleInvalidate.enter")
 	n.mu.Lock()
 	if n.invalidated {
 		go f()
@@ -187,6 +196,7 @@ func (n *node) handleInvalidate(f func()) {
 }
 
 func (n *node) handleRelease(f func()) {
+	verifhook.Yield("reactive.handleRelease.enter")
 	n.mu.Lock()
 	if n.released {
 		go f()
